@@ -614,3 +614,8 @@ def run(repo: Repo, rep: Report, tier: str) -> None:
     from .memo import memo_rule
 
     memo_rule(repo, rep, "C03.R26")
+    from .c05 import codec_fold_rule
+
+    # the generated reader decodes scalars itself (struct.unpack, the type called on a slice): the interpreted reader's own scalar readers must
+    # give the standard decoding for the two to agree
+    codec_fold_rule(repo, rep, "C03.R27", slots=("_read", "_read_array", "_read_0"))
